@@ -246,6 +246,24 @@ class LateLeaf(LateBase):
     pass
 
 
+class LTop:
+    """registered directly from the start; LMid gets a by-name printer late, LSub has none of its own"""
+
+    def __init__(self, n):
+        self.n = n
+
+    def __repr__(self):
+        return '<%s n=%d>' % (type(self).__name__, self.n)
+
+
+class LMid(LTop):
+    pass
+
+
+class LSub(LMid):
+    pass
+
+
 class Holder:
     """unregistered; its __repr__ calls pformat(self.target) - a print nested inside the print that is
     showing the Holder, of a container that is on the outer print's active path. The nested call is
@@ -423,6 +441,8 @@ def build_corpus():
     add('widget', 'nameclash', Widget('w1'))
     add('panel_widget', 'nameclash', [Panel.Widget(), Widget('w2')])
     add('late_leaf', 'late', LateLeaf(1), late=True)
+    add('late_chain_sub', 'late', LSub(4), late=True)
+    add('late_chain_all', 'late', [LTop(5), LMid(6), LSub(7)], late=True)
     add('late_mixed', 'late', {'k': [LateLeaf(2), LateBase(3)]}, late=True)
     task = Task()
     add('task_owner', 'reentrant', task.owner, idfree=False)
@@ -566,6 +586,10 @@ def register_harness():
     def pwidget(v, ctx):
         return pretty_call(ctx, type(v), name=v.name)
 
+    @register_pretty(LTop)
+    def pltop(v, ctx):
+        return pretty_call(ctx, type(v), v.n, via='top')
+
     @register_pretty(HTcOnce)
     def ptc_once(v, ctx, trailing_comment=None):
         if v.bad:
@@ -660,6 +684,8 @@ def late_register():
         LATE_DONE[0] = True
         P.register_pretty(LateBase.__module__ + '.' + LateBase.__qualname__)(
             lambda v, ctx: P.pretty_call(ctx, type(v), n=v.n))
+        P.register_pretty(LMid.__module__ + '.' + LMid.__qualname__)(
+            lambda v, ctx: P.pretty_call(ctx, type(v), v.n, via='mid'))
 
 
 def call(i):
